@@ -3,6 +3,7 @@ package env
 // C14 (environment source): either name sets the field, both together are an error.
 
 import (
+	"strconv"
 	"context"
 	"reflect"
 	"strings"
@@ -242,4 +243,38 @@ func HarnessC14EnvImplicit() {
 		zzverif.Assert(f("Region").Elem().String() == "eu", "C14 THE_REGION/ZONE: wrong value")
 	}
 	zzverif.Reached("c14-implicit-end")
+}
+
+// HarnessC14EnvTwice: one Source read repeatedly while the environment moves a field from one of
+// its names to the other (and then drops it): every read reflects the environment at that time.
+func HarnessC14EnvTwice() {
+	c14clear()
+	defer c14clear()
+	t := dials.NewType(ptrify.Pointerify(reflect.TypeOf(c14cfg{}), reflect.Value{}))
+	src := &Source{}
+	names := [2]string{"NAME", "OLDNAME"}
+	prev := ""
+	for round := 0; round < 3; round++ {
+		mode := zzverif.Choose("mode"+strconv.Itoa(round), 3) // neither, primary, alias
+		if prev != "" {
+			zzverif.Unsetenv(prev)
+			prev = ""
+		}
+		want := "v" + strconv.Itoa(round)
+		if mode != 0 {
+			prev = names[mode-1]
+			zzverif.Setenv(prev, want)
+		}
+		val, err := src.Value(context.Background(), t)
+		zzverif.Assert(err == nil, "C14 the environment source failed although no field was given under both its names (the same Source read again)")
+		if err != nil {
+			return
+		}
+		n := val.FieldByName("Name")
+		zzverif.Assert(n.IsNil() == (mode == 0), "C14 NAME/OLDNAME: field set although neither name is supplied now, or unset although one is (the same Source read again)")
+		if mode != 0 && !n.IsNil() {
+			zzverif.Assert(n.Elem().String() == want, "C14 NAME/OLDNAME: wrong value (the same Source read again)")
+		}
+	}
+	zzverif.Reached("c14-twice-end")
 }
